@@ -57,13 +57,27 @@ class _FineProcess:
         return 0.5
 
 
+class _Grid:
+    def __init__(self):
+        self.level = 0
+
+    def refine(self):
+        self.level += 1
+
+
 class ScriptedCoupling:
     """Quacks like rpylib's CouplingProcess for the multilevel engine."""
 
     def __init__(self):
         self.model = _Model()
         self.fine_process = _FineProcess()
-        self.level = 0
+        # like the real couplings, the level lives in a mutable grid object that next_level refines IN PLACE: a coupling
+        # that was copied shallowly shares it with its copy
+        self.grid = _Grid()
+
+    @property
+    def level(self):
+        return self.grid.level
 
     # --- life cycle ---------------------------------------------------------------------------
     def initialisation(self, product, max_step_epsilon=None):
@@ -79,7 +93,7 @@ class ScriptedCoupling:
         return float(self.level + 1)
 
     def next_level(self, mc_paths, path_managers, product, max_step_epsilon=None):
-        self.level += 1
+        self.grid.refine()
         emit(e="Next", lvl=self.level, arg=int(mc_paths))
         if path_managers is not None:
             pm = copy.deepcopy(path_managers[-1])
